@@ -5,6 +5,7 @@ package main
 import (
 	"context"
 	"database/sql"
+	"errors"
 	"fmt"
 	"math"
 	"sort"
@@ -43,6 +44,8 @@ type WCase struct {
 	// Both are invisible to the model (a failure is a failure, a cancellation a cancellation).
 	FaultKind string `json:"fault_kind,omitempty"`
 	Settle    bool   `json:"settle,omitempty"`
+
+	liveTypeMap map[string]string
 	// observed
 	Ok    bool         `json:"ok"`
 	Msg   string       `json:"msg,omitempty"`
@@ -141,8 +144,22 @@ func (w *WCase) options() []dataframe.SQLWriteOption {
 		for _, kv := range w.TypeMap {
 			o.TypeMap[string(kv.K)] = string(kv.V)
 		}
+		w.liveTypeMap = o.TypeMap
 	}
 	return []dataframe.SQLWriteOption{o}
+}
+
+func dedupSKVs(m []SKV) map[string]string {
+	out := map[string]string{}
+	for _, kv := range m {
+		out[string(kv.K)] = string(kv.V)
+	}
+	return out
+}
+
+// laterSKV: a later entry with the same key overrides this one (the Go map holds the last)
+func laterSKV(m []SKV, kv SKV) bool {
+	return dedupSKVs(m)[string(kv.K)] != string(kv.V)
 }
 
 // RunW executes one export scenario against the in-memory driver.
@@ -159,6 +176,12 @@ func RunW(w *WCase) {
 		mem.FaultErr = context.Canceled
 	case "wrapped":
 		mem.FaultErr = fmt.Errorf("driver: statement timeout: %w", context.DeadlineExceeded)
+	case "locked":
+		mem.FaultErr = errors.New("database is locked")
+	case "deadlock":
+		mem.FaultErr = errors.New("ERROR: deadlock detected; try restarting transaction (SQLSTATE 40P01)")
+	case "serialize":
+		mem.FaultErr = errors.New("could not serialize access due to concurrent update; lock wait timeout exceeded")
 	}
 	db := OpenMem(mem)
 	defer CloseMem(db)
@@ -221,6 +244,20 @@ func RunW(w *WCase) {
 	w.Ok = err == nil
 	if err != nil && w.Msg == "" {
 		w.Msg = err.Error()
+	}
+	// the caller's TypeMap must come back exactly as it was passed
+	if w.liveTypeMap != nil {
+		same := len(w.liveTypeMap) == len(dedupSKVs(w.TypeMap))
+		for _, kv := range w.TypeMap {
+			if v, ok := w.liveTypeMap[string(kv.K)]; !ok || (v != string(kv.V) && !laterSKV(w.TypeMap, kv)) {
+				same = false
+			}
+		}
+		if !same {
+			w.Ok = false
+			w.Msg = "panic"
+			err = errors.New("the library modified the caller's TypeMap")
+		}
 	}
 	w.Final = mapToTables(mem.Committed)
 }
